@@ -16,6 +16,8 @@ use crate::refenc::Proto;
 use crate::stream::{self, Clock, ExecResult, SimStream, StreamStats};
 use crate::tval::*;
 
+pub static GLOBAL_LAST_PANIC: std::sync::Mutex<Option<(String, String)>> = std::sync::Mutex::new(None);
+
 thread_local! {
     static LAST_PANIC: RefCell<Option<(String, String)>> = const { RefCell::new(None) };
 }
@@ -39,8 +41,16 @@ pub fn install_panic_hook() {
             }
             msg.truncate(cut);
         }
+        if let Ok(mut g) = GLOBAL_LAST_PANIC.lock() {
+            *g = Some((site.clone(), msg.clone()));
+        }
         LAST_PANIC.with(|p| *p.borrow_mut() = Some((site, msg)));
     }));
+}
+
+/// (site, message) of the most recent panic on this thread, if any (used to report harness panics).
+pub fn last_panic() -> Option<(String, String)> {
+    LAST_PANIC.with(|p| p.borrow().clone())
 }
 
 fn take_panic() -> (String, String) {
@@ -55,6 +65,17 @@ pub enum Val {
 }
 
 impl Val {
+    pub fn debug(&self) -> String {
+        match self {
+            Val::Tv(t) => format!("{:?}", t),
+            // Debug of a String holding invalid UTF-8 (from an unchecked conversion) may panic
+            Val::Dyn(d) => catch_unwind(AssertUnwindSafe(|| d.debug())).unwrap_or_else(|_| {
+                let _ = take_panic();
+                String::from("<debug panicked>")
+            }),
+            Val::Unit => "()".into(),
+        }
+    }
     pub fn same(&self, o: &Val) -> bool {
         match (self, o) {
             (Val::Tv(a), Val::Tv(b)) => a == b,
@@ -280,7 +301,7 @@ pub struct GenMem {
     pub skip_ret: Option<usize>,
 }
 
-pub fn gen_dec_mem<T: pilota::thrift::Message + PartialEq + 'static>(proto: Proto, buf: &mut Bytes, want_trailer: bool) -> GenMem {
+pub fn gen_dec_mem<T: pilota::thrift::Message + PartialEq + std::fmt::Debug + 'static>(proto: Proto, buf: &mut Bytes, want_trailer: bool) -> GenMem {
     let total = buf.len();
     with_mem_proto!(proto, buf, |p| {
         let res = T::decode(&mut p).map(|v| Val::Dyn(Box::new(v) as DynVal));
@@ -360,7 +381,7 @@ async fn stream_main<P: TAsyncInputProtocol>(p: &mut P, level: &Level, pos: &std
     AsyncPart { res, consumed, next }
 }
 
-pub async fn gen_dec_async<T: pilota::thrift::Message + PartialEq + 'static>(
+pub async fn gen_dec_async<T: pilota::thrift::Message + PartialEq + std::fmt::Debug + 'static>(
     proto: Proto,
     s: &mut PosStream,
     want_trailer: bool,
